@@ -6,7 +6,9 @@ import (
 	iofs "io/fs"
 	"os"
 	"sort"
+	"strconv"
 	"strings"
+	"time"
 
 	"github.com/ipfs/boxo/internal/verifrt"
 	dag "github.com/ipfs/boxo/ipld/merkledag"
@@ -97,9 +99,34 @@ func (d *zzvDag) RemoveMany(ctx context.Context, cs []cid.Cid) error { return ni
 
 type zzvM struct {
 	dir   bool
-	file  byte // content id of a file
+	file  byte   // content id of a file (its single data byte)
+	mode  uint32 // permission bits, 0 = none stored
+	mtime int64  // modification time (Unix seconds), 0 = none stored
 	names []string
 	kids  []*zzvM
+}
+
+// zzvStat renders stored metadata: "@<octal mode>" and "^<seconds>", nothing when unset.
+func zzvStat(mode uint32, mtime int64) string {
+	s := ""
+	if mode != 0 {
+		s += "@" + strconv.FormatUint(uint64(mode), 8)
+	}
+	if mtime != 0 {
+		s += "^" + strconv.FormatInt(mtime, 10)
+	}
+	return s
+}
+
+func zzvStatOf(mode os.FileMode, err1 error, mt time.Time, err2 error) string {
+	if err1 != nil || err2 != nil {
+		return "!stat"
+	}
+	var sec int64
+	if !mt.IsZero() {
+		sec = mt.Unix()
+	}
+	return zzvStat(uint32(mode&0xFFF), sec)
 }
 
 func zzvMDir() *zzvM          { return &zzvM{dir: true} }
@@ -136,7 +163,7 @@ func (m *zzvM) del(name string) {
 }
 
 func (m *zzvM) clone() *zzvM {
-	c := &zzvM{dir: m.dir, file: m.file}
+	c := &zzvM{dir: m.dir, file: m.file, mode: m.mode, mtime: m.mtime}
 	for i := range m.names {
 		c.names = append(c.names, m.names[i])
 		c.kids = append(c.kids, m.kids[i].clone())
@@ -169,7 +196,7 @@ func (m *zzvM) walk(parts []string) *zzvM {
 // render: canonical text of a tree, e.g. "{a:{d:{x:#1}} b:{}}".
 func (m *zzvM) render() string {
 	if !m.dir {
-		return "#" + string(rune('0'+m.file))
+		return "#" + string(rune('0'+m.file)) + zzvStat(m.mode, m.mtime)
 	}
 	idx := make([]int, len(m.names))
 	for i := range idx {
@@ -187,6 +214,7 @@ func (m *zzvM) render() string {
 		sb.WriteString(m.kids[i].render())
 	}
 	sb.WriteString("}")
+	sb.WriteString(zzvStat(m.mode, m.mtime))
 	return sb.String()
 }
 
@@ -354,6 +382,7 @@ func (m *zzvM) mvIntoItself(src, dst string) bool {
 type zzvFS struct {
 	ds        *zzvDag
 	root      *Root
+	initial   cid.Cid // root CID the republisher starts from
 	published []cid.Cid
 }
 
@@ -385,6 +414,9 @@ func zzvNewFS() *zzvFS {
 		panic(err)
 	}
 	fs.root = r
+	if nd, err := r.GetDirectory().GetNode(); err == nil {
+		fs.initial = nd.Cid()
+	}
 	return fs
 }
 
@@ -449,9 +481,15 @@ func zzvRenderDir(d *Directory) string {
 				continue
 			}
 			sb.WriteString(zzvFileID(nd))
+			mo, e1 := c.Mode()
+			mt, e2 := c.ModTime()
+			sb.WriteString(zzvStatOf(mo, e1, mt, e2))
 		}
 	}
 	sb.WriteString("}")
+	mo, e1 := d.Mode()
+	mt, e2 := d.ModTime()
+	sb.WriteString(zzvStatOf(mo, e1, mt, e2))
 	return sb.String()
 }
 
@@ -469,8 +507,9 @@ func (fs *zzvFS) viaDAG(c cid.Cid) string {
 	if err != nil {
 		return "!unixfs"
 	}
+	stat := zzvStatOf(fsn.Mode(), nil, fsn.ModTime(), nil)
 	if fsn.Type() != ft.TDirectory && fsn.Type() != ft.THAMTShard {
-		return zzvFileID(nd)
+		return zzvFileID(nd) + stat
 	}
 	dir, err := uio.NewDirectoryFromNode(fs.ds, nd)
 	if err != nil {
@@ -492,6 +531,7 @@ func (fs *zzvFS) viaDAG(c cid.Cid) string {
 		sb.WriteString(fs.viaDAG(l.Cid))
 	}
 	sb.WriteString("}")
+	sb.WriteString(stat)
 	return sb.String()
 }
 
@@ -523,6 +563,9 @@ var zzvPool = []string{
 	"/b/d/", "/c/", "/a/", "/n/m", "/b/f/z", "/a/d/y", "/",
 }
 
+// the pool of the two-operation histories
+var zzvSmallPool = []string{"/a/d/x", "/b/d/", "/b/f", "/c", "/a/d"}
+
 const (
 	zzvKMkdir = iota
 	zzvKMkdirP
@@ -530,7 +573,15 @@ const (
 	zzvKMv
 	zzvKUnlink
 	zzvKFlush
+	zzvKChmod
+	zzvKTouch
+	zzvKWrite
 	zzvKinds
+)
+
+const (
+	zzvNewMode  = 0o640
+	zzvNewMtime = 1_700_000_000
 )
 
 func zzvIsPrefixPath(a, b string) bool {
@@ -548,6 +599,10 @@ func zzvIsPrefixPath(a, b string) bool {
 
 // step performs one operation with symbolic kind and path arguments on both sides and compares.
 func zzvStep(fs *zzvFS, m *zzvM) {
+	zzvPool := zzvPool
+	if verifrt.Param("POOL", 0) == 1 {
+		zzvPool = zzvSmallPool
+	}
 	kind := verifrt.NondetRange("kind", 0, zzvKinds-1)
 	p := zzvPool[verifrt.NondetRange("path", 0, len(zzvPool)-1)]
 	before := m.render()
@@ -589,9 +644,62 @@ func zzvStep(fs *zzvFS, m *zzvM) {
 		var nd ipld.Node
 		nd, err = FlushPath(context.Background(), fs.root, p)
 		verifrt.Assert("C19.flushpath-result-matches-model", (err == nil) == (sub != nil))
+		want = sub != nil
 		if err == nil {
 			verifrt.Assert("C19.flushpath-returns-subtree", fs.viaDAG(nd.Cid()) == sub.render())
+			// the flush went up to the root and was published: the published root contains the subtree at p
+			last := fs.initial
+			if len(fs.published) > 0 {
+				last = fs.published[len(fs.published)-1]
+			}
+			c, ok := fs.resolveInDAG(last, zzvParts(p))
+			verifrt.Assert("C19.flushpath-published-root-contains-subtree", ok && fs.viaDAG(c) == sub.render())
 		}
+	}
+	switch kind {
+	case zzvKChmod:
+		nd := m.walk(zzvParts(p))
+		want = nd != nil
+		if want {
+			nd.mode = zzvNewMode
+		}
+		err = Chmod(fs.root, p, os.FileMode(zzvNewMode))
+		verifrt.Assert("C19.chmod-result-matches-model", (err == nil) == want)
+	case zzvKTouch:
+		nd := m.walk(zzvParts(p))
+		want = nd != nil
+		if want {
+			nd.mtime = zzvNewMtime
+		}
+		err = Touch(fs.root, p, time.Unix(zzvNewMtime, 0))
+		verifrt.Assert("C19.touch-result-matches-model", (err == nil) == want)
+	case zzvKWrite:
+		// open for writing, overwrite the data byte, close (flushes into the tree)
+		nd := m.walk(zzvParts(p))
+		want = nd != nil && !nd.dir
+		// outside: the modifier refreshes a stored mtime on write
+		verifrt.Assume(nd == nil || nd.mtime == 0)
+		var n FSNode
+		n, err = Lookup(fs.root, p)
+		if err == nil {
+			f, ok := n.(*File)
+			if !ok {
+				err = errors.New("not a file")
+			} else {
+				var fd FileDescriptor
+				fd, err = f.Open(context.Background(), Flags{Write: true, Sync: true})
+				if err == nil {
+					_, err = fd.Write([]byte{9})
+					if cerr := fd.Close(); err == nil {
+						err = cerr
+					}
+				}
+			}
+		}
+		if want {
+			nd.file = 9
+		}
+		verifrt.Assert("C19.write-result-matches-model", (err == nil) == want)
 	}
 	if !want {
 		verifrt.Assert("C19.failed-operation-leaves-model-unchanged", m.render() == before)
@@ -602,6 +710,37 @@ func zzvStep(fs *zzvFS, m *zzvM) {
 	} else {
 		verifrt.Assert("C19.tree-after-operation-matches-model", got == m.render())
 	}
+	// direct lookups (these go through the directories' child caches, also for names no listing shows)
+	for _, q := range zzvPool {
+		n, lerr := Lookup(fs.root, q)
+		mw := m.walk(zzvParts(q))
+		ok := (lerr == nil) == (mw != nil)
+		if ok && mw != nil {
+			ok = IsDir(n) == mw.dir
+		}
+		verifrt.Assert("C19.lookup-matches-model", ok)
+	}
+}
+
+// resolveInDAG follows the path components from the directory node root in the DAG service.
+func (fs *zzvFS) resolveInDAG(root cid.Cid, parts []string) (cid.Cid, bool) {
+	cur := root
+	for _, p := range parts {
+		nd, err := fs.ds.Get(context.Background(), cur)
+		if err != nil {
+			return cid.Undef, false
+		}
+		dir, err := uio.NewDirectoryFromNode(fs.ds, nd)
+		if err != nil {
+			return cid.Undef, false
+		}
+		ch, err := dir.Find(context.Background(), p)
+		if err != nil {
+			return cid.Undef, false
+		}
+		cur = ch.Cid()
+	}
+	return cur, true
 }
 
 func zzvSplit(p string) (dir, name string) {
@@ -626,9 +765,15 @@ func HarnessC19Ops() {
 	verifrt.Assert("C19.final-flush-succeeds", err == nil)
 	if err == nil {
 		verifrt.Assert("C19.flushed-root-dag-matches-model", fs.viaDAG(nd.Cid()) == m.render())
-		verifrt.Assert("C19.published-root-is-flushed-root", len(fs.published) > 0 && fs.published[len(fs.published)-1].Equals(nd.Cid()))
+		last := fs.initial
+		if len(fs.published) > 0 {
+			last = fs.published[len(fs.published)-1]
+		}
+		verifrt.Assert("C19.published-root-is-flushed-root", last.Equals(nd.Cid()))
 	}
 	verifrt.Observe("tree", m.render())
 	verifrt.Reach("end")
-	_ = os.ErrNotExist
 }
+
+// HarnessC19Seq2: two-operation histories over the small pool (parameters N=2, POOL=1).
+func HarnessC19Seq2() { HarnessC19Ops() }
